@@ -55,7 +55,7 @@ ALL_CATS = PK_CATS + ('COVARIATE',) + OTHER_CATS
 class Unit:
     """one feature description of the generated grammar with its independently known meaning"""
 
-    __slots__ = ('text', 'cat', 'atoms', 'forced', 'core')
+    __slots__ = ('text', 'cat', 'atoms', 'forced', 'core', 'ref')
 
     def __init__(self, text, cat, atoms, core=False):
         self.text = text
@@ -64,6 +64,7 @@ class Unit:
         # (parameter, covariate) pairs forced by a mandatory COVARIATE statement
         self.forced = frozenset((a[0], a[1]) for a in atoms if cat == 'COVARIATE' and not a[4])
         self.core = core
+        self.ref = '@' in text
 
 
 def _build_units():
@@ -156,17 +157,24 @@ def _with_defaults(atoms):
 
 
 def _expected_of_units(texts):
-    """(expanded space or None, expect_value_error) of the string made of these units"""
+    """(expanded space, dup) of the string made of these units.  dup: 'explicit' when two explicit
+    mandatory COVARIATE statements force the same (parameter, covariate) effect (parse must raise the
+    documented ValueError), 'ref' when the clash involves a statement written with @references (it
+    is documented to be rejected at the latest by expand(model)), else ''"""
     atoms = defaultdict(set)
-    forced_seen = set()
-    dup_forced = False
+    seen = []
+    dup = ''
     for t in texts:
         u = UNIT_BY_TEXT[t]
         atoms[u.cat] |= u.atoms
-        if u.forced & forced_seen:
-            dup_forced = True
-        forced_seen |= u.forced
-    return _with_defaults(atoms), dup_forced
+        for v in seen:
+            if u.forced & v.forced:
+                if u.ref or v.ref:
+                    dup = dup or 'ref'
+                else:
+                    dup = 'explicit'
+        seen.append(u)
+    return _with_defaults(atoms), dup
 
 
 def _n_combinations(space):
@@ -383,7 +391,7 @@ def _check_string(texts, sep):
     except Exception as e:
         out.append((MFL_PARSE + ':parse', C_PARSE_ERR, f'parse({s!r}) raised {_exc(e)}'))
         return out
-    if dup:
+    if dup == 'explicit':
         out.append((MFL_PARSE + ':validate_mfl_list', C_PARSE_ERR,
                     f'parse({s!r}) accepted an effect forced by two statements'))
         return out
@@ -396,7 +404,8 @@ def _check_string(texts, sep):
         out.append((MFL_PARSE + ':parse', C_PARSE,
                     f'{s!r}: parsed {_fmt(got)} expected {_fmt(expected)}'))
     try:
-        mf = m['parse'](s, mfl_class=True)
+        # what parse(s, mfl_class=True) does with the statement list
+        mf = m['MF'].create_from_mfl_statement_list(stmts)
         got = _expand_mf(mf)
     except Exception as e:
         out.append((MFL_PARSE + ':ModelFeatures.create_from_mfl_statement_list', C_CLASS,
@@ -405,11 +414,13 @@ def _check_string(texts, sep):
     if not _same_space(got, expected):
         out.append((MFL_PARSE + ':ModelFeatures.create_from_mfl_statement_list', C_CLASS,
                     f'{s!r}: holds {_fmt(got)} expected {_fmt(expected)}'))
+    if dup:
+        return out  # the printed form has explicit clashing statements, which parse rejects
     try:
         printed = repr(mf)
-        back = m['parse'](printed, mfl_class=True)
-        got2 = _expand_mf(back)
-        got3 = _expand_statements(m['parse'](printed))
+        back = m['parse'](printed)
+        got3 = _expand_statements(back)
+        got2 = _expand_mf(m['MF'].create_from_mfl_statement_list(back))
     except Exception as e:
         out.append((MFL_PARSE + ':ModelFeatures.__repr__', C_RT_ERR, f'{s!r}: raised {_exc(e)}'))
         return out
@@ -454,6 +465,34 @@ def _check_difference(got, ea, eb):
     return None
 
 
+_SPACE_CACHE = {}
+
+
+def _parsed_space(text):
+    """parse(text, mfl_class=True), once per process (C_PURE checks that operations leave it alone)"""
+    if text not in _SPACE_CACHE:
+        _SPACE_CACHE[text] = _mfl()['parse'](text, mfl_class=True)
+    return _SPACE_CACHE[text]
+
+
+def _reparse(r, got):
+    """expansion of parse(repr(r)); None when parse raises its documented ValueError because the
+    space forces one (parameter, covariate) effect in several ways"""
+    text = repr(r)
+    if text == '':
+        return {}
+    try:
+        return _expand_mf(_mfl()['parse'](text, mfl_class=True))
+    except ValueError:
+        forced = defaultdict(set)
+        for a in got.get('COVARIATE', ()):
+            if not a[4]:
+                forced[(a[0], a[1])].add((a[2], a[3]))
+        if any(len(v) > 1 for v in forced.values()):
+            return None
+        raise
+
+
 def _check_pair(ta, tb, sep=';', roundtrip=False):
     """all violated clauses of the pair of spaces (sep.join(ta), sep.join(tb))"""
     m = _mfl()
@@ -462,8 +501,8 @@ def _check_pair(ta, tb, sep=';', roundtrip=False):
     eb, dupb = _expected_of_units(tb)
     if dupa or dupb:
         return None
-    a = m['parse'](sa, mfl_class=True)
-    b = m['parse'](sb, mfl_class=True)
+    a = _parsed_space(sa)
+    b = _parsed_space(sb)
     out = []
     where = f'a={sa!r} b={sb!r}'
     state = {}
@@ -483,6 +522,9 @@ def _check_pair(ta, tb, sep=';', roundtrip=False):
         if 'xa' not in state:
             try:
                 state['xa'], state['xb'] = a.expand(None), b.expand(None)
+                if not (_same_space(_expand_mf(state['xa']), ea)
+                        and _same_space(_expand_mf(state['xb']), eb)):
+                    state['xa'] = state['xb'] = None  # expand() did not keep the space
             except Exception:
                 state['xa'] = state['xb'] = None
         if state['xa'] is None:
@@ -507,8 +549,8 @@ def _check_pair(ta, tb, sep=';', roundtrip=False):
                             f'{where}: a+b = {r!r} expands to {_fmt(got)} expected {_fmt(want)}'))
             if roundtrip:
                 try:
-                    back = _expand_mf(m['parse'](repr(r), mfl_class=True))
-                    if not _same_space(back, got):
+                    back = _reparse(r, got)
+                    if back is not None and not _same_space(back, got):
                         out.append((MF + '__repr__', C_RT_RES,
                                     f'{where}: a+b prints as {r!r} which expands to {_fmt(back)}, the '
                                     f'object holds {_fmt(got)}'))
@@ -527,8 +569,8 @@ def _check_pair(ta, tb, sep=';', roundtrip=False):
                 out.append((MF + '__sub__', C_SUB, f'{where}: a-b = {r!r}: {msg}'))
             if roundtrip:
                 try:
-                    back = _expand_mf(m['parse'](repr(r), mfl_class=True)) if repr(r) else {}
-                    if not _same_space(back, got):
+                    back = _reparse(r, got)
+                    if back is not None and not _same_space(back, got):
                         out.append((MF + '__repr__', C_RT_RES,
                                     f'{where}: a-b prints as {r!r} which expands to {_fmt(back)}, the '
                                     f'object holds {_fmt(got)}'))
@@ -664,7 +706,9 @@ def _mfl_pair_cases(tier):
     single, two = _pair_spaces(tier)
     for a in single:
         for b in single:
-            yield (a, b, True)
+            # the results a+b and a-b are printed and parsed again (core descriptions only in quick)
+            rt = tier != 'quick' or (UNIT_BY_TEXT[a[0]].core and UNIT_BY_TEXT[b[0]].core)
+            yield (a, b, rt)
     if tier == 'quick':
         # two-statement spaces against every single-statement space, both ways
         for a in two:
